@@ -3,6 +3,7 @@
 -/
 import ModVerif.Proofs.TieFnTile
 import ModVerif.Proofs.TileAuthNew
+set_option linter.unusedSimpArgs false
 namespace ModVerif.TieFnTile
 open ModVerif ModVerif.GoRt ModVerif.GoRtTile
 
